@@ -166,10 +166,11 @@ def run(tier, seed):
             ("random", ["--mode", "random", "--n", 60 if quick else 1500]),
             ("log", ["--mode", "log", "--n", 60 if quick else 1500])]
     if not quick:
-        # every pair of vectors of length <= 4 over {-1,0,2} for the set-like / error-protocol calls, in slices
-        for i in range(4):
-            runs.append(("exh2set%d" % i, ["--mode", "exh2", "--len", 4, "--types", "int,double" if i == 0 else "int", "--setlike", 1, "--vals3", 1,
-                                           "--slice", i, "--of", 4]))
+        # the set-like / error-protocol calls on every pair of vectors of length <= 4: over {-1,0,1,2} for int (116,281 pairs,
+        # in slices to bound the trace files), over {-1,0,2} for double (14,641 pairs)
+        for i in range(8):
+            runs.append(("exh2set%d" % i, ["--mode", "exh2", "--len", 4, "--types", "int", "--setlike", 1, "--slice", i, "--of", 8]))
+        runs.append(("exh2setd", ["--mode", "exh2", "--len", 4, "--types", "double", "--setlike", 1, "--vals3", 1]))
     for name, args in runs:
         traces, rej = _run(ck, exes, name, args, wd, totals)
         if name == "random":
@@ -204,7 +205,13 @@ def run(tier, seed):
 
 
 def replay(path):
-    n_ev, rej, st = vc.validate_trace(SPEC, "VectorTrace", TRACE_CFG, path, parallel=1)
+    import shutil
+    tmp = os.path.join(vc.workdir("c07"), "replay-%d.ndjson" % os.getpid())
+    shutil.copyfile(os.path.abspath(path), tmp)
+    try:
+        n_ev, rej, st = vc.validate_trace(SPEC, "VectorTrace", TRACE_CFG, tmp, parallel=1)
+    finally:
+        os.remove(tmp)
     _cleanup()
     for rj in rej:
         vc.log("VIOLATION property=C07 replay=%s" % path)
